@@ -253,7 +253,7 @@ func matchAny(op, filter string) bool {
 }
 
 func main() {
-	mode := flag.String("mode", "kernel", "kernel | prop | replay")
+	mode := flag.String("mode", "kernel", "kernel | prop | replay | race")
 	prop := flag.String("prop", "", "property id for -mode prop")
 	n := flag.Int("n", 100, "cases per operation / per generator")
 	seed := flag.Int64("seed", 1, "PRNG seed")
@@ -271,6 +271,9 @@ func main() {
 		propMode(g, *prop, *n)
 	case "replay":
 		replayMode(flag.Args())
+	case "race":
+		out.Flush()
+		raceMode(g, *n)
 	default:
 		fmt.Fprintln(os.Stderr, "unknown mode")
 		os.Exit(2)
